@@ -45,6 +45,7 @@ type world struct {
 
 	minted, burned *big.Int // GAS Transfer events with from / to = null of all HALTed executions so far
 
+	emptied    string // scratch of the generator class "voting account emptied"
 	nonce      uint32
 	notaryFrom uint32 // first block index at which the designated notary node is effective
 	lastFault  string
@@ -252,9 +253,9 @@ func (w *world) initLine(attrFee int64, gasInit int64) string {
 		cts = append(cts, fmt.Sprintf("%d:w", w.aid(h)))
 	}
 	cts = append(cts, fmt.Sprintf("%d:x", w.aid(w.nopay)), fmt.Sprintf("%d:x", w.aid(w.gasH)), fmt.Sprintf("%d:a", w.aid(w.treasuryH)))
-	return fmt.Sprintf("init %d %d %d %d %d %d %d %d %d %d %s %s %s %s", w.aid(w.notaryH), w.aid(w.neoH), w.aid(w.gasH), w.aid(w.policyH),
+	return fmt.Sprintf("init %d %d %d %d %d %d %d %d %d %d %s %s %s %s %d", w.aid(w.notaryH), w.aid(w.neoH), w.aid(w.gasH), w.aid(w.policyH),
 		w.C, w.V, attrFee, w.aid(w.treasuryH), w.aid(w.valSigner.ScriptHash()), gasInit,
-		strings.Join(sb, ","), strings.Join(ka, ","), strings.Join(ms, ","), strings.Join(cts, ","))
+		strings.Join(sb, ","), strings.Join(ka, ","), strings.Join(ms, ","), strings.Join(cts, ","), w.aid(w.desigH))
 }
 
 // committeeSigner builds the majority multisig signer of the CURRENT committee (all
@@ -327,18 +328,6 @@ func (w *world) addBlock(primary byte, txs ...*transaction.Transaction) (*block.
 	b.PrimaryIndex = primary
 	w.e.SignBlock(b)
 	return b, w.bc.AddBlock(b)
-}
-
-// notariesAt: the designated notary nodes' accounts as Notary.OnPersist of block idx sees them.
-func (w *world) notariesAt(idx uint32) string {
-	if w.notaryFrom != 0 && idx >= w.notaryFrom {
-		var ids []string
-		for _, nk := range w.notaryAll {
-			ids = append(ids, fmt.Sprint(w.aid(nk.GetScriptHash())))
-		}
-		return strings.Join(ids, ",")
-	}
-	return "-"
 }
 
 // addBlockSafe is addBlock with a panic of the real code turned into a value.
